@@ -48,7 +48,15 @@ func runSolver(ctx context.Context, sc solverCfg, timeoutS, seed int, file strin
 	_ = cmd.Run()
 	d := time.Since(t0).Seconds()
 	text := out.String()
-	first := strings.TrimSpace(strings.SplitN(strings.TrimSpace(text), "\n", 2)[0])
+	first := ""
+	for _, ln := range strings.Split(text, "\n") {
+		ln = strings.TrimSpace(ln)
+		if ln == "" || strings.HasPrefix(ln, "WARNING") {
+			continue
+		}
+		first = ln
+		break
+	}
 	r := "error"
 	switch {
 	case strings.Contains(text, "(error"):
